@@ -695,7 +695,7 @@ func (messagesMapper) Save(msg *types.Message, attachmentURLs []string, readBySe
 		}
 	}
 
-	if len(attachmentURLs) > 0 {
+	if len(attachmentURLs) > 0 && mediaHandler != nil {
 		var attachments []string
 		for _, url := range attachmentURLs {
 			// Convert attachment URLs to file IDs.
@@ -1039,6 +1039,10 @@ func (fileMapper) DeleteUnused(olderThan time.Time, limit int) error {
 // LinkAttachments connects earlier uploaded attachments to a message or topic to prevent it
 // from being garbage collected.
 func (fileMapper) LinkAttachments(topic string, msgId types.Uid, attachments []string) error {
+	if mediaHandler == nil {
+		// Media handler is not configured: there are no uploaded files to link.
+		return nil
+	}
 	// Convert attachment URLs to file IDs.
 	var fids []string
 	for _, url := range attachments {
